@@ -165,7 +165,9 @@ Proof.
   induction q as [|i q IH]; intros s s' r H; cbn in H.
   - inv H. apply set_inq_R.
   - assert (R s (set_inq q s)) as R0 by apply set_inq_R.
-    destruct i as [d|l d|b].
+    assert ((let '(s1, x) := send_error 10 (set_inq q s) in (s1, @Exc item x)) = (s', r) -> R s s') as SE.
+    { intros X. destruct (send_error 10 (set_inq q s)) eqn:E. inv X. eapply R_trans; [exact R0|eapply send_error_R; eauto]. }
+    destruct i as [d|l d|b|k].
     + destruct c.
       * destruct d; [eapply R_trans; [exact R0|eauto]|inv H; exact R0].
       * destruct d; [eapply R_trans; [exact R0|eauto]|inv H; exact R0].
@@ -177,18 +179,51 @@ Proof.
         destruct (send_error 10 (set_inq q s)) eqn:E. inv H. eapply R_trans; [exact R0|eapply send_error_R; eauto].
       * destruct (send_error 10 (set_inq q s)) eqn:E. inv H. eapply R_trans; [exact R0|eapply send_error_R; eauto].
       * inv H; exact R0.
+    + destruct k as [| |a|a].
+      * destruct c; try (apply SE; exact H). destruct (tls13 s); [inv H; exact R0|apply SE; exact H].
+      * destruct c; try (apply SE; exact H). destruct (tls13 s); [inv H; exact R0|apply SE; exact H].
+      * destruct a; [|apply SE; exact H].
+        eapply R_trans; [exact R0|]. eapply R_trans; [|eapply IH; exact H].
+        destruct (send_rec (WHs 24) (set_inq q s)) eqn:E. cbn. eapply send_rec_R; eauto.
+      * destruct c; try (apply SE; exact H). destruct (a && tls13 s); [inv H; exact R0|apply SE; exact H].
 Qed.
 
 Lemma get_msg_R c s s' r : get_msg c s = (s', r) -> R s s'.
 Proof. apply get_msg_q_R. Qed.
 
+Lemma post_send_hs_R s s' r : post_send_hs s = (s', r) -> R s s'.
+Proof.
+  unfold post_send_hs. intros H.
+  destruct (send_rec (WHs 22) s) as [s1 e] eqn:E. pose proof (send_rec_R _ _ _ _ E) as R1.
+  destruct e as [z|]; [|inv H; exact R1].
+  destruct (recv_item s1) as [s2 ri] eqn:V.
+  assert (R s1 s2) as R2.
+  { unfold recv_item in V. destruct (inq s1); inv V; [apply R_refl|apply set_inq_R]. }
+  destruct ri as [i|x| |]; try (inv H; eapply R_trans; eauto; fail).
+  destruct (shutdown false s2) as [s3 e'] eqn:S. apply shutdown_R in S. inv H.
+  eapply R_trans; [exact R1|]. eapply R_trans; [exact R2|exact S].
+Qed.
+
+Lemma read_msg_R s s' r : read_msg s = (s', r) -> R s s'.
+Proof.
+  unfold read_msg. intros H. destruct (get_msg CRead s) as [s1 r1] eqn:G. pose proof (get_msg_R _ _ _ _ G) as R1.
+  destruct r1 as [i|x| |]; try (inv H; exact R1).
+  destruct i as [d|l d|b|k]; try (inv H; exact R1).
+  destruct k as [| |a|a]; try (inv H; exact R1).
+  - destruct (post_send_hs s1) as [s2 r2] eqn:P. apply post_send_hs_R in P.
+    destruct r2; inv H; eapply R_trans; eauto.
+  - destruct (sock_send [WHs 22; WHs 22; WHs 22] s1) as [s2 e] eqn:P. apply sock_send_R in P.
+    inv H. eapply R_trans; eauto.
+Qed.
+
 Lemma read_loop_R mn : forall f t s s' r, read_loop f t mn s = (s', r) -> R s s'.
 Proof.
   induction f as [|f IH]; intros t s s' r H; cbn in H; [inv H; apply R_refl|].
   destruct (((zlen (rbuf s) <? mn) || (is_nil (rbuf s) && t)) && negb (closed s)); [|inv H; apply R_refl].
-  destruct (get_msg CRead s) as [s1 r1] eqn:G. pose proof (get_msg_R _ _ _ _ G) as R1.
+  destruct (read_msg s) as [s1 r1] eqn:G. pose proof (read_msg_R _ _ _ G) as R1.
   destruct r1 as [i|x| |].
-  - destruct i; (eapply R_trans; [exact R1|]); [eapply R_trans; [apply set_rbuf_R|eapply IH; eauto]|eauto|eauto].
+  - destruct i as [d|l d|b|k]; (eapply R_trans; [exact R1|]);
+      [eapply R_trans; [apply set_rbuf_R|eapply IH; eauto]|eauto|eauto|destruct k; eauto].
   - destruct x; try (inv H; exact R1).
     + destruct (ign s1); [|inv H; exact R1].
       destruct (shutdown true s1) as [s2 e] eqn:S. pose proof (shutdown_R _ _ _ _ S) as R2.
@@ -373,6 +408,36 @@ Proof.
   - apply raise_after_shutdown_spec in H. destruct H as ((S1 & C1 & M1 & H1) & CL & (y & ->)). fin.
 Qed.
 
+(* ---- post-handshake public calls ---------------------------------------------------------- *)
+Lemma post_outcome_R s p s' o : post_send_hs s = p -> post_outcome p = (s', o) -> R s s' /\ o <> OHsDone.
+Proof.
+  intros P H. destruct p as [s1 r]. apply post_send_hs_R in P. destruct r; inv H; (split; [exact P|discriminate]).
+Qed.
+
+Lemma do_keyupdate_R s s' o : do_keyupdate s = (s', o) -> R s s' /\ o <> OHsDone.
+Proof.
+  unfold do_keyupdate. intros H. destruct (closed s); [inv H; split; [apply R_refl|discriminate]|].
+  destruct (negb (tls13 s)); [inv H; split; [apply R_refl|discriminate]|].
+  eapply post_outcome_R; eauto.
+Qed.
+
+Lemma do_pha_R ok s s' o : do_pha ok s = (s', o) -> R s s' /\ o <> OHsDone.
+Proof.
+  unfold do_pha. intros H. destruct (closed s || negb ok || negb (tls13 s)); [inv H; split; [apply R_refl|discriminate]|].
+  eapply post_outcome_R; eauto.
+Qed.
+
+Lemma do_heartbeat_R ok s s' o : do_heartbeat ok s = (s', o) -> R s s' /\ o <> OHsDone.
+Proof.
+  unfold do_heartbeat. intros H. destruct (closed s); [inv H; split; [apply R_refl|discriminate]|].
+  destruct (negb ok); [inv H; split; [apply R_refl|discriminate]|].
+  destruct (send_rec (WHs 24) s) as [s1 e] eqn:E. apply send_rec_R in E.
+  destruct e; inv H; (split; [exact E|discriminate]).
+Qed.
+
+Definition post_call (ev : event) : Prop :=
+  match ev with UKeyUpdate | UPha _ | UHeartbeat _ => True | _ => False end.
+
 (* ---- whole steps ------------------------------------------------------------------------- *)
 Definition not_setsess (ev : event) : Prop := forall b, ev <> UHs (HSetSess b).
 
@@ -387,6 +452,9 @@ Proof.
   - apply do_hs_spec in H. destruct H as (_ & A & _). apply A. intros b E. apply (NS b). congruence.
   - inv H. apply sess_le_refl.
   - inv H. apply sess_le_refl.
+  - apply do_keyupdate_R in H. apply H.
+  - apply do_pha_R in H. apply H.
+  - apply do_heartbeat_R in H. apply H.
   - destruct (rx_open s && sock_open s); inv H; apply sess_le_refl.
   - destruct (rx_open s); inv H; apply sess_le_refl.
   - destruct (rx_open s); inv H; apply sess_le_refl.
@@ -446,6 +514,9 @@ Proof.
   - apply do_hs_spec in H. destruct H as (_ & _ & M & B & _). intros X. destruct (B X) as (B1 & B2). auto.
   - inv H. exact I.
   - inv H. exact I.
+  - pose proof (do_keyupdate_R _ _ _ H) as ((_ & _ & M & E) & _). rewrite E. auto.
+  - pose proof (do_pha_R _ _ _ _ H) as ((_ & _ & M & E) & _). rewrite E. auto.
+  - pose proof (do_heartbeat_R _ _ _ _ H) as ((_ & _ & M & E) & _). rewrite E. auto.
   - destruct (rx_open s && sock_open s); inv H; exact I.
   - destruct (rx_open s); inv H; exact I.
   - destruct (rx_open s); inv H; exact I.
@@ -453,9 +524,9 @@ Proof.
 Qed.
 
 (* "If an exception is raised, the connection will have been automatically closed" *)
-Lemma exc_closes s ev s' x : inv s -> step s ev = (s', OExc x) -> closed s' = true.
+Lemma exc_closes s ev s' x : inv s -> ~ post_call ev -> step s ev = (s', OExc x) -> closed s' = true.
 Proof.
-  intros I H. destruct ev; cbn in H; try (inv H; fail).
+  intros I NP H. destruct ev; cbn in H; try (inv H; fail); try (exfalso; apply NP; exact Logic.I).
   - eapply do_read_exc; eauto.
   - eapply do_write_exc; eauto.
   - eapply do_close_exc; eauto.
@@ -500,6 +571,9 @@ Proof.
     + intros ->. destruct (D eq_refl). congruence.
   - inv H. split; [exact HS|discriminate].
   - inv H. split; [exact HS|discriminate].
+  - pose proof (do_keyupdate_R _ _ _ H) as ((_ & _ & _ & E) & N). split; [congruence|exact N].
+  - pose proof (do_pha_R _ _ _ _ H) as ((_ & _ & _ & E) & N). split; [congruence|exact N].
+  - pose proof (do_heartbeat_R _ _ _ _ H) as ((_ & _ & _ & E) & N). split; [congruence|exact N].
   - destruct (rx_open s && sock_open s); inv H; (split; [exact HS|discriminate]).
   - destruct (rx_open s); inv H; (split; [exact HS|discriminate]).
   - destruct (rx_open s); inv H; (split; [exact HS|discriminate]).
@@ -546,6 +620,8 @@ Lemma step_shut s ev s' o : shut s -> data_event ev -> step s ev = (s', o) ->
   | URead _ _ => exists d, o = ORet d /\ d ++ rbuf s' = rbuf s /\ sess s' = sess s
   | UWrite _ => o = OExc XClosed /\ s' = s
   | UClose => o = ODone /\ s' = s
+  | UKeyUpdate | UHeartbeat _ => o = OExc XClosed /\ s' = s
+  | UPha _ => o = OExc XValue /\ s' = s
   | _ => sess s' = sess s
   end.
 Proof.
@@ -558,6 +634,9 @@ Proof.
   - inv H. unfold shut; cbn. tauto.
   - inv H. unfold shut; cbn. tauto.
   - inv H. unfold shut; cbn. tauto.
+  - unfold do_keyupdate in H. rewrite C in H. inv H. tauto.
+  - unfold do_pha in H. rewrite C in H. cbn in H. inv H. tauto.
+  - unfold do_heartbeat in H. rewrite C in H. inv H. tauto.
   - destruct (rx_open s && sock_open s); inv H; unfold shut; cbn; tauto.
   - destruct (rx_open s); inv H; unfold shut; cbn; tauto.
   - destruct (rx_open s); inv H; unfold shut; cbn; tauto.
@@ -566,21 +645,24 @@ Qed.
 
 Lemma run_shut : forall evs s s' os, shut s -> Forall data_event evs -> run s evs = (s', os) ->
   shut s' /\ wire s' = wire s /\
-  Forall (fun o => (exists d, o = ORet d) \/ o = OExc XClosed \/ o = ODone \/ o = OStep \/ o = ONone) os.
+  Forall (fun o => (exists d, o = ORet d) \/ o = OExc XClosed \/ o = OExc XValue \/ o = ODone \/ o = OStep \/ o = ONone) os.
 Proof.
   induction evs as [|ev evs IH]; intros s s' os S F H; cbn in H; [inv H; auto|].
   destruct (step s ev) as [s1 o] eqn:E. destruct (run s1 evs) as [s2 os2] eqn:E2. inv H.
   inversion F; subst. destruct (step_shut _ _ _ _ S H1 E) as (S1 & W1 & K).
   destruct (IH _ _ _ S1 H2 E2) as (S2 & W2 & K2). split; [exact S2|]. split; [congruence|].
   constructor; [|exact K2].
-  destruct ev; cbn in E; try contradiction; try (inv E; auto; fail).
+  destruct ev; cbn in E; try contradiction; try (inv E; auto 10; fail).
   - destruct K as (d & -> & _). left; eauto.
-  - destruct K as (-> & _). auto.
-  - destruct K as (-> & _). auto.
-  - destruct (rx_open s && sock_open s); inv E; auto.
-  - destruct (rx_open s); inv E; auto.
-  - destruct (rx_open s); inv E; auto.
-  - destruct (txf s); inv E; auto.
+  - destruct K as (-> & _). auto 10.
+  - destruct K as (-> & _). auto 10.
+  - destruct K as (-> & _). auto 10.
+  - destruct K as (-> & _). auto 10.
+  - destruct K as (-> & _). auto 10.
+  - destruct (rx_open s && sock_open s); inv E; auto 10.
+  - destruct (rx_open s); inv E; auto 10.
+  - destruct (rx_open s); inv E; auto 10.
+  - destruct (txf s); inv E; auto 10.
 Qed.
 
 (* on a shut connection no data call and no transport event touches the session *)
@@ -589,6 +671,9 @@ Proof.
   intros S D E. destruct (step_shut _ _ _ _ S D E) as (_ & _ & K).
   destruct ev; cbn in *; try contradiction; try tauto.
   - destruct K as (d & _ & _ & K). exact K.
+  - destruct K as (_ & ->). reflexivity.
+  - destruct K as (_ & ->). reflexivity.
+  - destruct K as (_ & ->). reflexivity.
   - destruct K as (_ & ->). reflexivity.
   - destruct K as (_ & ->). reflexivity.
 Qed.
@@ -602,8 +687,9 @@ Proof. reflexivity. Qed.
 
 Lemma read_loop_S f t mn s : read_loop (S f) t mn s =
     if ((zlen (rbuf s) <? mn) || (is_nil (rbuf s) && t)) && negb (closed s) then
-      match get_msg CRead s with
+      match read_msg s with
       | (s1, Val (IData d)) => read_loop f false mn (set_rbuf (rbuf s1 ++ d) s1)
+      | (s1, Val (ICtl KuNoReq)) => read_loop f true mn s1
       | (s1, Val _) => read_loop f false mn s1
       | (s1, Exc (XRemote d)) => if d =? 0 then read_loop f false mn s1 else (s1, Exc (XRemote d))
       | (s1, Exc XAbrupt) =>
@@ -651,7 +737,7 @@ Lemma read_close_notify s l rest mx mn :
 Proof.
   intros C Q B I Hc. cbn [step]. unfold do_read. rewrite I. cbn [length].
   rewrite read_loop_S, C. cbn [negb]. rewrite !andb_true_r, Hc.
-  unfold get_msg. rewrite I, get_msg_q_alert_read.
+  unfold read_msg, get_msg. rewrite I, get_msg_q_alert_read.
   destruct (alert_branch l 0 (set_inq rest s)) as [s1 x] eqn:A.
   apply alert_branch_quiet in A; [|exact Q|exact B].
   destruct A as (-> & C1 & H1 & RC1 & RB1 & IQ1 & Q1 & B1 & CF1 & RX1 & SE1 & W1). cbn in *.
@@ -686,7 +772,7 @@ Lemma read_truncated s mx mn :
 Proof.
   intros C Q B I SO RX Hc. cbn [step]. unfold do_read. rewrite I. cbn [length].
   rewrite read_loop_S, C. cbn [negb]. rewrite !andb_true_r, Hc.
-  rewrite get_msg_empty by exact I. unfold no_input. rewrite SO, RX. cbn [negb].
+  unfold read_msg. rewrite get_msg_empty by exact I. unfold no_input. rewrite SO, RX. cbn [negb].
   destruct (ign s) eqn:IG.
   - destruct (shutdown true s) as [s1 e] eqn:S.
     pose proof (shutdown_spec _ _ _ _ S) as (C1 & _ & RB & _ & _ & _ & _ & SE & _ & QQ & _).
@@ -704,7 +790,7 @@ Lemma read_sock_error s e mx mn :
 Proof.
   intros C Q B I SO RX Hc. cbn [step]. unfold do_read. rewrite I. cbn [length].
   rewrite read_loop_S, C. cbn [negb]. rewrite !andb_true_r, Hc.
-  rewrite get_msg_empty by exact I. unfold no_input. rewrite SO, RX. cbn [negb].
+  unfold read_msg. rewrite get_msg_empty by exact I. unfold no_input. rewrite SO, RX. cbn [negb].
   destruct (raise_off (XSock e) s Q) as (s' & E & C' & SE & _). exists s'. rewrite E. auto.
 Qed.
 
@@ -717,7 +803,7 @@ Lemma read_alert s l d rest mx mn :
 Proof.
   intros C Q B I D Hc. cbn [step]. unfold do_read. rewrite I. cbn [length].
   rewrite read_loop_S, C. cbn [negb]. rewrite !andb_true_r, Hc.
-  unfold get_msg. rewrite I, get_msg_q_alert_read.
+  unfold read_msg, get_msg. rewrite I, get_msg_q_alert_read.
   destruct (alert_branch l d (set_inq rest s)) as [s1 x] eqn:A.
   apply alert_branch_quiet in A; [|exact Q|exact B].
   destruct A as (-> & C1 & H1 & RC1 & RB1 & IQ1 & Q1 & B1 & CF1 & RX1 & SE1 & W1). cbn in *.
@@ -750,7 +836,10 @@ Lemma get_msg_q_read_facts : forall q s s' r, get_msg_q CRead q s = (s', r) ->
 Proof.
   induction q as [|i q IH]; intros s s' r H; cbn [get_msg_q] in H.
   - inv H. unfold no_input. destruct (negb _); [exact I|]. destruct (rxe _); exact I.
-  - destruct i as [d|l d|b].
+  - assert (forall s1 x, send_error 10 (set_inq q s) = (s1, x) ->
+            match @Exc item x with Exc (XRemote d) => exists l, In (IAlert l d) (i :: q) | _ => True end) as SE.
+    { intros s1 x A. apply send_error_exn in A. destruct A as [(z & ->)| ->]; exact I. }
+    destruct i as [d|l d|b|k].
     + destruct d.
       * apply IH in H. destruct r as [i|x| |]; auto.
         -- cbn in H. destruct H as (A & B). split; [exact A|]. intros y Y. right. apply B. exact Y.
@@ -762,6 +851,46 @@ Proof.
       * inv H. cbn. split; [reflexivity|]. intros y Y. right. exact Y.
       * destruct (send_error 10 (set_inq q s)) as [s1 x] eqn:A. inv H.
         apply send_error_exn in A. destruct A as [(z & ->)| ->]; exact I.
+    + destruct k as [| |a|a].
+      * destruct (tls13 (set_inq q s)); [inv H; cbn; split; [reflexivity|intros y Y; right; exact Y]|].
+        destruct (send_error 10 (set_inq q s)) as [s1 x] eqn:A. inv H. eapply SE; eauto.
+      * destruct (tls13 (set_inq q s)); [inv H; cbn; split; [reflexivity|intros y Y; right; exact Y]|].
+        destruct (send_error 10 (set_inq q s)) as [s1 x] eqn:A. inv H. eapply SE; eauto.
+      * destruct a.
+        -- destruct (send_rec (WHs 24) (set_inq q s)) as [sa ea] eqn:E. cbn [fst] in H.
+           pose proof (send_rec_core _ _ _ _ E) as ((CA & _) & _). cbn in CA.
+           apply IH in H. destruct r as [i|x| |]; auto.
+           ++ destruct H as (A & B). split; [congruence|]. intros y Y. right. apply B. exact Y.
+           ++ destruct x; auto. destruct H as (l & L). exists l. right. exact L.
+        -- destruct (send_error 10 (set_inq q s)) as [s1 x] eqn:A. inv H. eapply SE; eauto.
+      * destruct (a && tls13 (set_inq q s)); [inv H; cbn; split; [reflexivity|intros y Y; right; exact Y]|].
+        destruct (send_error 10 (set_inq q s)) as [s1 x] eqn:A. inv H. eapply SE; eauto.
+Qed.
+
+Lemma read_msg_facts s s' r : read_msg s = (s', r) ->
+  match r with
+  | Val _ => closed s' = closed s /\ incl (inq s') (inq s)
+  | Exc (XRemote d) => exists l, In (IAlert l d) (inq s)
+  | _ => True
+  end.
+Proof.
+  unfold read_msg. intros H. destruct (get_msg CRead s) as [s1 r1] eqn:G.
+  unfold get_msg in G. apply get_msg_q_read_facts in G.
+  destruct r1 as [i|x| |]; try (inv H; exact G).
+  destruct i as [d|l d|b|k]; try (inv H; exact G).
+  destruct k as [| |a|a]; try (inv H; exact G); destruct G as (C1 & INC).
+  - unfold post_send_hs in H. destruct (send_rec (WHs 22) s1) as [s2 e] eqn:E.
+    pose proof (send_rec_core _ _ _ _ E) as ((C2 & _) & I2 & _).
+    destruct e as [z|].
+    + unfold recv_item in H. destruct (inq s2) as [|i q] eqn:Q.
+      * unfold no_input in H. destruct (negb (sock_open s2)); [inv H; exact I|]. destruct (rxe s2); inv H; exact I.
+      * destruct (shutdown false (set_inq q s2)) as [s3 e'] eqn:S. inv H.
+        destruct e'; [exact I|]. destruct i; try exact I.
+        exists lvl. apply INC. rewrite <- I2. left. reflexivity.
+    + inv H. split; [congruence|]. rewrite I2. exact INC.
+  - destruct (sock_send [WHs 22; WHs 22; WHs 22] s1) as [s2 e] eqn:E.
+    pose proof (sock_send_core _ _ _ _ E) as ((C2 & _) & I2 & _).
+    inv H. destruct e; [exact I|]. split; [congruence|]. rewrite I2. exact INC.
 Qed.
 
 Lemma read_loop_closes_only_on_close_notify mn : forall f t s s' u,
@@ -772,15 +901,16 @@ Proof.
   - cbn in H. discriminate.
   - rewrite read_loop_S in H.
     destruct (((zlen (rbuf s) <? mn) || (is_nil (rbuf s) && t)) && negb (closed s)); [|inv H; congruence].
-    destruct (get_msg CRead s) as [s1 r1] eqn:G.
-    pose proof (get_msg_R _ _ _ _ G) as (_ & (IG1 & _) & _ & _).
-    unfold get_msg in G. apply get_msg_q_read_facts in G.
+    destruct (read_msg s) as [s1 r1] eqn:G.
+    pose proof (read_msg_R _ _ _ G) as (_ & (IG1 & _) & _ & _).
+    apply read_msg_facts in G.
     destruct r1 as [i|x| |]; try discriminate.
     + destruct G as (C1 & INC).
       assert (exists l, In (IAlert l 0) (inq s1)) as (l & L).
-      { destruct i; [eapply (IH false (set_rbuf (rbuf s1 ++ d) s1)); eauto; cbn; congruence
+      { destruct i as [d|lv d|b|k]; [eapply (IH false (set_rbuf (rbuf s1 ++ d) s1)); eauto; cbn; congruence
                     |eapply (IH false s1); eauto; congruence
-                    |eapply (IH false s1); eauto; congruence]. }
+                    |eapply (IH false s1); eauto; congruence
+                    |destruct k; [eapply (IH false s1)|eapply (IH true s1)|eapply (IH false s1)|eapply (IH false s1)]; eauto; congruence]. }
       exists l. apply INC. exact L.
     + destruct x; try discriminate.
       * destruct (ign s1) eqn:X; [congruence|discriminate].
@@ -894,10 +1024,11 @@ Proof.
     assert (exists s', hs_wrapper (XSock e) s2 = (s', OExc (XSock e)) /\ contained s s' (OExc (XSock e))) as K.
     { destruct (wrapper_off (XSock e) s2 Q2) as (s' & E & H & _ & SE & C). exists s'. split; [exact E|].
       unfold contained, fault_exn. repeat split; eauto. rewrite SE, SE2. apply off_off. }
-    destruct i as [d|l d|b].
+    destruct i as [d|l d|b|k].
     + exact K.
     + destruct (wrapper_off (XRemote d) s2 Q2) as (s' & E & H & CC & SE). exists s'. rewrite E.
       repeat split; auto. congruence.
+    + exact K.
     + exact K.
 Qed.
 
@@ -916,10 +1047,11 @@ Proof.
     destruct (inq s) as [|i rest] eqn:I.
     + destruct (rxe s) eqn:RXE; [congruence| |];
         destruct K as (s' & o & E & (X & H & C & SE)); exists s', o; repeat split; auto.
-    + destruct i as [d|l d|b].
+    + destruct i as [d|l d|b|k].
       * destruct K as (s' & E & (X & H & C & SE)). exists s', (OExc (XSock e)). repeat split; auto.
       * destruct K as (s' & E & H & C & SE). exists s', (OExc (XRemote d)). repeat split; auto.
         right. exists l, d, rest. auto.
+      * destruct K as (s' & E & (X & H & C & SE)). exists s', (OExc (XSock e)). repeat split; auto.
       * destruct K as (s' & E & (X & H & C & SE)). exists s', (OExc (XSock e)). repeat split; auto.
   - destruct (hs_send_fault s ct e HS Q B T NE) as (s' & E & (X & H & C & SE)).
     exists s', (OExc (XSock e)). repeat split; auto.
@@ -960,7 +1092,7 @@ Qed.
 (* ---- orderly close, then anything but a write or a new handshake ------------------------- *)
 Lemma shut_continuation : forall evs s1 s2 os, shut s1 -> Forall data_event evs -> run s1 evs = (s2, os) ->
       closed s2 = true /\ sess s2 = sess s1 /\ wire s2 = wire s1 /\
-      Forall (fun o => (exists d, o = ORet d) \/ o = OExc XClosed \/ o = ODone \/ o = OStep \/ o = ONone) os /\
+      Forall (fun o => (exists d, o = ORet d) \/ o = OExc XClosed \/ o = OExc XValue \/ o = ODone \/ o = OStep \/ o = ONone) os /\
       (rbuf s1 = [] -> Forall (fun o => forall d, o = ORet d -> d = []) os).
 Proof.
   induction evs as [|ev evs IH]; intros s1 s2 os S1 F H; cbn in H.
@@ -972,18 +1104,24 @@ Proof.
     destruct (IH sa _ _ Sa H2 E2) as (Cb & SEb & Wb & Fb & Eb).
     repeat split; auto; try congruence.
     + constructor; [|exact Fb].
-      destruct ev; cbn in E; try contradiction; try (inv E; auto; fail).
+      destruct ev; cbn in E; try contradiction; try (inv E; auto 10; fail).
       * destruct K as (d & -> & _). left; eauto.
-      * destruct K as (-> & _). auto.
-      * destruct K as (-> & _). auto.
-      * destruct (rx_open s1 && sock_open s1); inv E; auto.
-      * destruct (rx_open s1); inv E; auto.
-      * destruct (rx_open s1); inv E; auto.
-      * destruct (txf s1); inv E; auto.
+      * destruct K as (-> & _). auto 10.
+      * destruct K as (-> & _). auto 10.
+      * destruct K as (-> & _). auto 10.
+      * destruct K as (-> & _). auto 10.
+      * destruct K as (-> & _). auto 10.
+      * destruct (rx_open s1 && sock_open s1); inv E; auto 10.
+      * destruct (rx_open s1); inv E; auto 10.
+      * destruct (rx_open s1); inv E; auto 10.
+      * destruct (txf s1); inv E; auto 10.
     + intros RB. assert (rbuf sa = [] /\ forall d, o = ORet d -> d = []) as (RBa & Oa).
       { destruct ev; cbn in E; try contradiction; try (inv E; split; [auto|discriminate]; fail).
         - destruct K as (d & -> & K & _). rewrite RB in K. apply app_eq_nil in K. destruct K as (-> & ->).
           split; [reflexivity|]. intros d E'. inv E'. reflexivity.
+        - destruct K as (-> & ->). split; [exact RB|discriminate].
+        - destruct K as (-> & ->). split; [exact RB|discriminate].
+        - destruct K as (-> & ->). split; [exact RB|discriminate].
         - destruct K as (-> & ->). split; [exact RB|discriminate].
         - destruct K as (-> & ->). split; [exact RB|discriminate].
         - destruct (rx_open s1 && sock_open s1); inv E; (split; [auto|discriminate]).
@@ -1001,7 +1139,7 @@ Lemma after_close_notify_lemma s l rest mx mn :
     (sock_open s = true -> txf s = None -> wire s1 = wire s ++ [WAlert 1 0]) /\
     forall evs s2 os, Forall data_event evs -> run s1 evs = (s2, os) ->
       closed s2 = true /\ sess s2 = sess s /\ wire s2 = wire s1 /\
-      Forall (fun o => (exists d, o = ORet d) \/ o = OExc XClosed \/ o = ODone \/ o = OStep \/ o = ONone) os /\
+      Forall (fun o => (exists d, o = ORet d) \/ o = OExc XClosed \/ o = OExc XValue \/ o = ODone \/ o = OStep \/ o = ONone) os /\
       (rbuf s1 = [] -> Forall (fun o => forall d, o = ORet d -> d = []) os).
 Proof.
   intros C HS Q B I Hc.
@@ -1052,19 +1190,19 @@ Proof.
             match x with XRemote _ => (length (inq s1) < length (i :: q))%nat | _ => True end) as SE.
     { intros d s1 x E. apply send_error_inq in E. cbn in *. rewrite E.
       split; [discriminate|]. split; [lia|]. destruct x; auto; lia. }
-    assert (forall j s1 r1, get_msg_q c q (set_inq q s) = (s1, r1) ->
+    assert (forall j t s1 r1, get_msg_q c q t = (s1, r1) -> length (inq t) = length q ->
             r1 <> Fuel /\ (length (inq s1) <= length (j :: q))%nat /\
             match r1 with
             | Val _ => (length (inq s1) < length (j :: q))%nat
             | Exc (XRemote _) => (length (inq s1) < length (j :: q))%nat
             | _ => True
             end) as REC.
-    { intros j s1 r1 E. apply IH in E. destruct E as (A & B & C). split; [exact A|]. split; [cbn; lia|].
+    { intros j t s1 r1 E _. apply IH in E. destruct E as (A & B & C). split; [exact A|]. split; [cbn; lia|].
       destruct r1 as [?|x| |]; auto; [cbn; lia|]. destruct x; auto; cbn; lia. }
-    destruct i as [d|l d|b].
+    destruct i as [d|l d|b|k].
     + destruct c.
-      * destruct d; [apply REC; exact H|inv H; cbn; repeat split; auto; discriminate].
-      * destruct d; [apply REC; exact H|inv H; cbn; repeat split; auto; discriminate].
+      * destruct d; [eapply REC; [exact H|reflexivity]|inv H; cbn; repeat split; auto; discriminate].
+      * destruct d; [eapply REC; [exact H|reflexivity]|inv H; cbn; repeat split; auto; discriminate].
       * destruct (send_error 10 (set_inq q s)) as [s1 x] eqn:E. inv H. apply SE in E. exact E.
     + assert (forall s1 x, alert_branch l d (set_inq q s) = (s1, x) ->
               Exc x <> @Fuel item /\ (length (inq s1) <= length (IAlert l d :: q))%nat /\
@@ -1080,6 +1218,56 @@ Proof.
         destruct (send_error 10 (set_inq q s)) as [s1 x] eqn:E. inv H. apply SE in E. exact E.
       * destruct (send_error 10 (set_inq q s)) as [s1 x] eqn:E. inv H. apply SE in E. exact E.
       * inv H. cbn. repeat split; auto; discriminate.
+    + assert ((let '(s1, x) := send_error 10 (set_inq q s) in (s1, @Exc item x)) = (s', r) ->
+              r <> Fuel /\ (length (inq s') <= length (ICtl k :: q))%nat /\
+              match r with Val _ => (length (inq s') < length (ICtl k :: q))%nat
+                         | Exc (XRemote _) => (length (inq s') < length (ICtl k :: q))%nat | _ => True end) as SE'.
+      { intros X. destruct (send_error 10 (set_inq q s)) as [s1 x] eqn:E. inv X. apply SE in E. exact E. }
+      destruct k as [| |a|a].
+      * destruct c; try (apply SE'; exact H).
+        destruct (tls13 (set_inq q s)); [inv H; cbn; repeat split; auto; discriminate|apply SE'; exact H].
+      * destruct c; try (apply SE'; exact H).
+        destruct (tls13 (set_inq q s)); [inv H; cbn; repeat split; auto; discriminate|apply SE'; exact H].
+      * destruct a; [|apply SE'; exact H]. eapply REC; [exact H|].
+        destruct (send_rec (WHs 24) (set_inq q s)) as [sa ea] eqn:E. cbn [fst].
+        apply send_rec_core in E. destruct E as (_ & E & _). rewrite E. reflexivity.
+      * destruct c; try (apply SE'; exact H).
+        destruct (a && tls13 (set_inq q s)); [inv H; cbn; repeat split; auto; discriminate|apply SE'; exact H].
+Qed.
+
+Lemma post_send_hs_len s s' r : post_send_hs s = (s', r) -> r <> Fuel /\ (length (inq s') <= length (inq s))%nat.
+Proof.
+  unfold post_send_hs. intros H. destruct (send_rec (WHs 22) s) as [s1 e] eqn:E.
+  apply send_rec_core in E. destruct E as (_ & I1 & _).
+  destruct e as [z|]; [|inv H; split; [discriminate|rewrite I1; lia]].
+  unfold recv_item in H. destruct (inq s1) as [|i q] eqn:Q.
+  - unfold no_input in H. rewrite <- I1.
+    destruct (negb (sock_open s1)); [inv H; split; [discriminate|rewrite Q; cbn; lia]|].
+    destruct (rxe s1); inv H; (split; [discriminate|rewrite Q; cbn; lia]).
+  - destruct (shutdown false (set_inq q s1)) as [s3 e'] eqn:S. apply shutdown_inq in S. inv H.
+    split; [discriminate|]. rewrite S. cbn [inq set_inq]. rewrite <- I1. cbn. lia.
+Qed.
+
+Lemma read_msg_len s s' r : read_msg s = (s', r) ->
+  r <> Fuel /\ (length (inq s') <= length (inq s))%nat /\
+  match r with
+  | Val _ => (length (inq s') < length (inq s))%nat
+  | Exc (XRemote _) => (length (inq s') < length (inq s))%nat
+  | _ => True
+  end.
+Proof.
+  unfold read_msg. intros H. destruct (get_msg CRead s) as [s1 r1] eqn:G. unfold get_msg in G.
+  apply get_msg_q_len in G. destruct G as (NF & LE & ST).
+  destruct r1 as [i|x| |]; try (inv H; auto; fail).
+  destruct i as [d|l d|b|k]; try (inv H; auto; fail).
+  destruct k as [| |a|a]; try (inv H; auto; fail).
+  - destruct (post_send_hs s1) as [s2 r2] eqn:P. apply post_send_hs_len in P. destruct P as (NF2 & LE2).
+    destruct r2 as [u|x| |]; inv H; try (split; [discriminate|split; [lia|]]; auto; fail).
+    + split; [discriminate|]. split; [lia|lia].
+    + split; [discriminate|]. split; [lia|]. destruct x; auto; lia.
+    + congruence.
+  - destruct (sock_send [WHs 22; WHs 22; WHs 22] s1) as [s2 e] eqn:P. apply sock_send_core in P.
+    destruct P as (_ & I2 & _). inv H. rewrite I2. destruct e; (split; [discriminate|split; [lia|auto]]).
 Qed.
 
 Definition measure (s : st) : nat := (length (inq s) + (if closed s then 0 else 1))%nat.
@@ -1091,12 +1279,12 @@ Proof.
   destruct (((zlen (rbuf s) <? mn) || (is_nil (rbuf s) && t)) && negb (closed s)) eqn:CND; [|inv H; discriminate].
   apply andb_true_iff in CND. destruct CND as (_ & CL). apply negb_true_iff in CL.
   unfold measure in M. rewrite CL in M.
-  destruct (get_msg CRead s) as [s1 r1] eqn:G. unfold get_msg in G.
-  pose proof (get_msg_q_len _ _ _ _ _ G) as (NF & LE & ST).
+  destruct (read_msg s) as [s1 r1] eqn:G.
+  pose proof (read_msg_len _ _ _ G) as (NF & LE & ST).
   assert (forall s2, inq s2 = inq s1 -> (length (inq s1) < length (inq s))%nat -> (measure s2 < f)%nat) as K.
   { intros s2 E L. unfold measure. rewrite E. destruct (closed s2); lia. }
   destruct r1 as [i|x| |]; [ | |inv H; discriminate|congruence].
-  - destruct i; eapply IH; try exact H; apply K; auto.
+  - destruct i as [d|l d|b|k]; [| | |destruct k]; eapply IH; try exact H; apply K; auto.
   - destruct x; try (inv H; discriminate).
     + destruct (ign s1); [|inv H; discriminate].
       destruct (shutdown true s1) as [s2 e] eqn:S. pose proof (shutdown_spec _ _ _ _ S) as (C2 & _ & _ & I2 & _).
@@ -1151,11 +1339,138 @@ Proof.
     + destruct (flush s) as [s1 e]. destruct e; [eapply W; eauto|inv E; discriminate].
     + inv E; discriminate.
     + inv E; discriminate.
+  - unfold do_keyupdate. destruct (closed s); [cbn; discriminate|]. destruct (negb (tls13 s)); [cbn; discriminate|].
+    destruct (post_send_hs s) as [s1 r] eqn:P. apply post_send_hs_len in P. destruct P as (NF & _).
+    destruct r; cbn; try discriminate. congruence.
+  - unfold do_pha. destruct (closed s || negb ok || negb (tls13 s)); [cbn; discriminate|].
+    destruct (post_send_hs s) as [s1 r] eqn:P. apply post_send_hs_len in P. destruct P as (NF & _).
+    destruct r; cbn; try discriminate. congruence.
+  - unfold do_heartbeat. destruct (closed s); [cbn; discriminate|]. destruct (negb ok); [cbn; discriminate|].
+    destruct (send_rec (WHs 24) s) as [s1 e]. destruct e; cbn; discriminate.
   - destruct (_ && _); cbn; discriminate.
   - destruct (rx_open s); cbn; discriminate.
   - destruct (rx_open s); cbn; discriminate.
   - destruct (txf s); cbn; discriminate.
 Qed.
+
+(* ---- transport faults at the public post-handshake calls ----------------------------------- *)
+(* send_keyupdate_request / request_post_handshake_auth with the send direction dead: the
+   look-for-alert branch of _sendMsgThroughSocket runs with no wrapper around it *)
+Lemma post_send_fault s e : closed s = false -> wq s = [] -> bufw s = false -> tx_dead s e ->
+  match inq s with
+  | [] => match rxe s with
+          | RxOpen => post_send_hs s = (s, Blk)
+          | RxEof => post_send_hs s = (s, Exc XAbrupt)       (* raised, but nothing closed the connection *)
+          | RxErr e' => post_send_hs s = (s, Exc (XSock e'))  (* the same *)
+          end
+  | IAlert l d :: _ =>
+      exists s', post_send_hs s = (s', Exc (XRemote d)) /\ closed s' = true /\
+                 sess s' = option_map (fun _ => false) (sess s)
+  | _ :: _ =>
+      exists s', post_send_hs s = (s', Exc (XSock e)) /\ closed s' = true /\
+                 sess s' = option_map (fun _ => false) (sess s)
+  end.
+Proof.
+  intros C Q B T. pose proof T as (SO & _). unfold post_send_hs. rewrite (send_rec_dead _ _ _ B T).
+  unfold recv_item. destruct (inq s) as [|i rest] eqn:I.
+  - unfold no_input. rewrite SO. cbn [negb]. destruct (rxe s); reflexivity.
+  - destruct (shutdown false (set_inq rest s)) as [s2 e2] eqn:S.
+    pose proof (shutdown_spec _ _ _ _ S) as (C2 & _ & _ & _ & _ & _ & _ & _ & SE2 & QQ & _).
+    destruct (QQ Q) as (-> & Q2). specialize (SE2 eq_refl eq_refl). cbn in SE2.
+    destruct i as [d|l d|b|k]; exists s2; auto.
+Qed.
+
+Lemma keyupdate_fault s e : closed s = false -> tls13 s = true -> wq s = [] -> bufw s = false -> tx_dead s e ->
+  match inq s with
+  | [] => match rxe s with
+          | RxOpen => step s UKeyUpdate = (s, OBlocked)
+          | RxEof => step s UKeyUpdate = (s, OExc XAbrupt)
+          | RxErr e' => step s UKeyUpdate = (s, OExc (XSock e'))
+          end
+  | IAlert l d :: _ =>
+      exists s', step s UKeyUpdate = (s', OExc (XRemote d)) /\ closed s' = true /\
+                 sess s' = option_map (fun _ => false) (sess s)
+  | _ :: _ =>
+      exists s', step s UKeyUpdate = (s', OExc (XSock e)) /\ closed s' = true /\
+                 sess s' = option_map (fun _ => false) (sess s)
+  end.
+Proof.
+  intros C T13 Q B T. cbn [step]. unfold do_keyupdate. rewrite C, T13. cbn [negb].
+  pose proof (post_send_fault s e C Q B T) as K.
+  destruct (inq s) as [|i rest].
+  - destruct (rxe s); rewrite K; reflexivity.
+  - destruct i as [d|l d|b|k]; destruct K as (s' & -> & K); exists s'; auto.
+Qed.
+
+Lemma pha_fault s e : closed s = false -> tls13 s = true -> wq s = [] -> bufw s = false -> tx_dead s e ->
+  match inq s with
+  | [] => match rxe s with
+          | RxOpen => step s (UPha true) = (s, OBlocked)
+          | RxEof => step s (UPha true) = (s, OExc XAbrupt)
+          | RxErr e' => step s (UPha true) = (s, OExc (XSock e'))
+          end
+  | IAlert l d :: _ =>
+      exists s', step s (UPha true) = (s', OExc (XRemote d)) /\ closed s' = true /\
+                 sess s' = option_map (fun _ => false) (sess s)
+  | _ :: _ =>
+      exists s', step s (UPha true) = (s', OExc (XSock e)) /\ closed s' = true /\
+                 sess s' = option_map (fun _ => false) (sess s)
+  end.
+Proof.
+  intros C T13 Q B T. cbn [step]. unfold do_pha. rewrite C, T13. cbn [negb orb].
+  pose proof (post_send_fault s e C Q B T) as K.
+  destruct (inq s) as [|i rest].
+  - destruct (rxe s); rewrite K; reflexivity.
+  - destruct i as [d|l d|b|k]; destruct K as (s' & -> & K); exists s'; auto.
+Qed.
+
+(* a heartbeat request is not a handshake record: the socket error is raised as it is *)
+Lemma heartbeat_fault s e : closed s = false -> bufw s = false -> tx_dead s e ->
+  step s (UHeartbeat true) = (s, OExc (XSock e)).
+Proof.
+  intros C B T. cbn [step]. unfold do_heartbeat. rewrite C. cbn [negb]. rewrite (send_rec_dead _ _ _ B T). reflexivity.
+Qed.
+
+(* Full statement: a transport failure at a public post-handshake call closes the connection. *)
+Definition post_handshake_fault_contained_full : Prop :=
+  forall s e ev, post_call ev -> closed s = false -> hs s = false -> tls13 s = true -> wq s = [] -> bufw s = false ->
+    tx_dead s e -> rxe s <> RxOpen ->
+    forall s' x, step s ev = (s', OExc x) -> x <> XValue -> closed s' = true.
+
+Definition est13 : st := mkst false false 1 (Some true) false true true false 16384 true false [] [] [] RxEof (Some (0, 32)) [].
+
+Lemma post_handshake_fault_contained_not_full : ~ post_handshake_fault_contained_full.
+Proof.
+  intros F.
+  assert (closed est13 = true) as X.
+  { apply (F est13 32 UKeyUpdate I eq_refl eq_refl eq_refl eq_refl eq_refl) with (x := XAbrupt).
+    - split; [reflexivity|]. exists 0. split; [reflexivity|]. intros Y; discriminate Y.
+    - discriminate.
+    - reflexivity.
+    - discriminate. }
+  discriminate X.
+Qed.
+
+(* the witnesses as histories from a fresh connection *)
+Definition post_fault_script (ev : event) : list event :=
+  [UHsStart; UHs (HSend 22); NIn (IHs false); UHs HRecv; UHs (HSetSess true); UHs HDone;
+   NSendBreak 0 32; NEof; ev; UWrite [119]].
+
+Lemma keyupdate_fault_history :
+  let '(s', os) := run (init false true true false 16384) (post_fault_script UKeyUpdate) in
+  os = [OStep; OStep; ONone; OStep; OStep; OHsDone; ONone; ONone; OExc XAbrupt; OExc (XSock 32)] /\
+  sess s' = Some false /\ inv s'.
+Proof. vm_compute. repeat split. Qed.
+
+Lemma keyupdate_fault_history_open :
+  let '(s', os) := run (init false true true false 16384) (firstn 9 (post_fault_script UKeyUpdate)) in
+  nth 8 os ONone = OExc XAbrupt /\ closed s' = false /\ sess s' = Some true.
+Proof. vm_compute. repeat split. Qed.
+
+Lemma heartbeat_fault_history_open :
+  let '(s', os) := run (init false true false false 16384) (firstn 9 (post_fault_script (UHeartbeat true))) in
+  nth 8 os ONone = OExc (XSock 32) /\ closed s' = false /\ sess s' = Some true.
+Proof. vm_compute. repeat split. Qed.
 
 (* ---- the two histories that refuted the full statements before the fixes in /repo ---------- *)
 (* Before /repo 0ab9df1 (_sendMsgThroughSocket fell through when the waiting record was not an
